@@ -87,7 +87,7 @@ class ValidationHook:
 class C08:
     prop = "C08"
     level = "exploration"
-    budgets = {"quick": 500, "thorough": 25000}
+    budgets = {"quick": 750, "thorough": 25000}
     warm_refinement = True
 
     def generate(self, rnd, index, tier):
